@@ -177,6 +177,16 @@ def build_witnesses(tier: str) -> List[Witness]:
         for st in (("Snake_Case", "pascalcase", "") if thorough else ("Snake_Case",)):
             W.append(_mk("unknown_style_%s_%s" % (st or "empty", d), "unknown serialize_all style", d,
                          enum_for(d, base_variants(d), '#[strum(serialize_all = "%s")]\n' % st), enum_for(d, base_variants(d), '#[strum(serialize_all = "snake_case")]\n')))
+    # 11b. near-misses of documented styles (wrong separator) are unknown styles too
+    for st in ("snake-case", "SCREAMING-SNAKE-CASE", "title-case", "Train_Case", "SCREAMING_KEBAB_CASE", "camel-case", "Pascal_Case", "lower_case"):
+        d = ["Display", "EnumString", "AsRefStr", "VariantNames"][len(st) % 4]
+        W.append(_mk("near_miss_style_%s_%s" % (st, d), "unknown serialize_all style", d,
+                     enum_for(d, base_variants(d), '#[strum(serialize_all = "%s")]\n' % st), enum_for(d, base_variants(d), '#[strum(serialize_all = "snake_case")]\n'), "separator near-miss"))
+    # 3b. lifetime parameter used only by a disabled variant
+    for d in ("EnumIter", "FromRepr"):
+        bad = "#[derive(Clone, Debug, %s)]\npub enum Wit<'a> {\n    Alpha,\n    Beta,\n    #[strum(disabled)]\n    Word(&'a str),\n}\n" % d
+        ok = "#[derive(Clone, Debug, %s)]\npub enum Wit {\n    Alpha,\n    Beta,\n    #[strum(disabled)]\n    Word(&'static str),\n}\n" % d
+        W.append(_mk("lifetime_disabled_only_" + d, "lifetime parameter", d, bad, ok, "the lifetime is used only by a disabled variant"))
     # 12. only one of parse_err_ty / parse_err_fn
     both = enum_for("EnumString", base_variants("EnumString"), "#[strum(parse_err_ty = MyErr, parse_err_fn = my_err)]\n")
     W.append(_mk("lone_parse_err_ty", "only one of parse_err_ty / parse_err_fn", "EnumString", enum_for("EnumString", base_variants("EnumString"), "#[strum(parse_err_ty = MyErr)]\n"), both))
